@@ -45,8 +45,9 @@ Step == /\ Len(ops) < MaxSteps
         /\ \E kind \in (IF ops = <<>> THEN {"set"} ELSE Kinds2), v \in 1..NV, l \in BOOLEAN :
              /\ (~FreeAll /\ ops # <<>> => /\ kind = Pick(KindSeq, focus + ops[1].v + (IF ops[1].fields[focus].lock THEN 2 ELSE 0))
                                            /\ (kind \in {"set", "subset"} => l = ((focus + ops[1].v) % 2 = 0)))
+             /\ v <= Len(SetVals(Fields[focus]))
              /\ (kind \in {"refill", "same"} => v = 1 /\ l)            \* no parameters
-             /\ (kind \in {"set", "subset"} /\ ops # <<>> => v = (ops[1].v % NV) + 1) \* a second set step takes the next value
+             /\ (kind \in {"set", "subset"} /\ ops # <<>> => v = (ops[1].v % Len(SetVals(Fields[focus]))) + 1) \* a second set step takes the next value
              /\ LET op == MkOp(kind, focus, v, l, cur)
                 IN /\ ops' = Append(ops, [kind |-> kind, v |-> v, fields |-> op, allowed |-> FillAllowed(cur, op, Apply(cur, op))])
                    /\ cur' = Apply(cur, op)
